@@ -167,10 +167,10 @@ def stmt(s, ind):
         for f in s["fields"]:
             out += f"{pad}\t{f['n']}: {f['ty']}\n"
         for c in s["ctor"]:
-            ps = ", ".join(p["n"] + ": " + p["ty"] for p in c["ps"])
+            ps = ", ".join(["self"] + [p["n"] + ": " + p["ty"] for p in c["ps"]])
             out += f"{pad}\tconstructor({ps}) {{\n" + block(c["b"], ind + 2) + f"{pad}\t}}\n"
         for m in s["methods"]:
-            ps = ", ".join(p["n"] + ": " + p["ty"] for p in m["ps"])
+            ps = ", ".join(["self"] + [p["n"] + ": " + p["ty"] for p in m["ps"]])
             rt = f" -> {m['rt']}" if m.get("rt") else ""
             out += f"{pad}\tfn {m['n']}({ps}){rt} {{\n" + block(m["b"], ind + 2) + f"{pad}\t}}\n"
         return out + f"{pad}}}\n"
